@@ -801,16 +801,62 @@ theorem SimFinal.setMem_eq {stG : BrSt} {stS : BSt} (h : SimFinal stG stS) (hr :
     simp only [List.any_cons, List.any_nil, Bool.or_false, CRange.mem, BItem.mem]
     exact convItem_mem (.ch cDash) y
 
-/-- What `scanBracket` and `bracket` say about the same text. -/
-def BracketAgree (s : Str) : Prop :=
-  match scanBracket false s with
+/-- What the reference verdict `sc` and pattern.go's verdict `g` on a bracket must have in
+    common (`s` is the text after the `[`). -/
+def AgreeP (sc : BScan) (g : BrRes) (s : Str) : Prop :=
+  match sc with
   | .ok neg items rest' =>
-    ∃ st, bracket false s = .closed neg st rest' ∧ st.hasSlash = false ∧ st.deferred = none ∧
+    ∃ st, g = .closed neg st rest' ∧ st.hasSlash = false ∧ st.deferred = none ∧
       rest'.length < s.length ∧ ∀ nc x, setMem nc neg st.items x = bracketMem nc neg items x
   | .malformed e =>
-    bracket false s = .err e ∨
-      ∃ neg st rest', bracket false s = .closed neg st rest' ∧ st.hasSlash = false ∧ st.deferred = some e
-  | .notBracket => bracket false s = .literal
+    g = .err e ∨ ∃ neg st rest', g = .closed neg st rest' ∧ st.hasSlash = false ∧ st.deferred = some e
+  | .notBracket => g = .literal
+
+def BracketAgree (s : Str) : Prop := AgreeP (scanBracket false s) (bracket false s) s
+
+/-- `scanBracket` after the optional `!`/`^`. -/
+def sbBody (neg : Bool) (body : Str) : BScan :=
+  match scanItems false (body.length + 1) true
+      { items := [], slash := false, rangeErr := none, classErr := none } body with
+  | (st, some rest) =>
+    if st.slash then .notBracket
+    else match st.rangeErr with
+      | some e => .malformed e
+      | none => .ok neg st.items rest
+  | (st, none) =>
+    match st.classErr with
+    | some e => .malformed e
+    | none => .notBracket
+
+/-- The verdict from a final scan result. -/
+def sbOfRes (neg : Bool) (res : BSt × Option Str) : BScan :=
+  match res with
+  | (st, some rest) =>
+    if st.slash then .notBracket
+    else match st.rangeErr with
+      | some e => .malformed e
+      | none => .ok neg st.items rest
+  | (st, none) =>
+    match st.classErr with
+    | some e => .malformed e
+    | none => .notBracket
+
+theorem sbBody_eq (neg : Bool) (body : Str) :
+    sbBody neg body = sbOfRes neg (scanItems false (body.length + 1) true
+      { items := [], slash := false, rangeErr := none, classErr := none } body) := rfl
+
+/-- `bracket` after the optional `!`/`^`. -/
+def brBody (neg : Bool) (prev1 : Rune) (body : Str) : BrRes :=
+  match body with
+  | [] => .literal
+  | c1 :: r2 =>
+    if c1 = cRB then
+      match r2 with
+      | [] => .literal
+      | _ => brLoop false neg (r2.length + 1)
+          { items := [.raw cRB], hasSlash := false, deferred := none, classErr := none } cRB r2
+    else brLoop false neg (body.length + 1)
+      { items := [], hasSlash := false, deferred := none, classErr := none } prev1 body
 
 theorem sim0 : Sim { items := [], hasSlash := false, deferred := none, classErr := none }
     { items := [], slash := false, rangeErr := none, classErr := none } :=
@@ -818,165 +864,377 @@ theorem sim0 : Sim { items := [], hasSlash := false, deferred := none, classErr 
 
 /-- From the joint outcome of the two scans to the verdicts of `bracket` and `scanBracket`. -/
 theorem agree_of_out (neg : Bool) (res : BSt × Option Str) (g : BrRes) (r s : Str)
-    (hlen : r.length ≤ s.length) (h : Out neg res g r) :
-    match (match res with
-      | (st, some rest) =>
-        if st.slash then BScan.notBracket
-        else match st.rangeErr with
-          | some e => BScan.malformed e
-          | none => BScan.ok neg st.items rest
-      | (st, none) =>
-        match st.classErr with
-        | some e => BScan.malformed e
-        | none => BScan.notBracket) with
-    | .ok neg' items rest' =>
-      ∃ st, g = .closed neg' st rest' ∧ st.hasSlash = false ∧ st.deferred = none ∧
-        rest'.length < s.length ∧ ∀ nc x, setMem nc neg' st.items x = bracketMem nc neg' items x
-    | .malformed e =>
-      g = .err e ∨ ∃ neg' st rest', g = .closed neg' st rest' ∧ st.hasSlash = false ∧ st.deferred = some e
-    | .notBracket => g = .literal := by
+    (hlen : r.length ≤ s.length) (h : Out neg res g r) : AgreeP (sbOfRes neg res) g s := by
   obtain ⟨stS, o⟩ := res
   cases o with
   | none =>
     simp only [Out] at h
     cases hc : stS.classErr with
-    | none => simp [hc] at h ⊢; exact h
-    | some e => simp [hc] at h ⊢; exact .inl h
+    | none => simp [hc] at h; simp [sbOfRes, hc, AgreeP, h]
+    | some e => simp [hc] at h; simp [sbOfRes, hc, AgreeP, h]
   | some rest' =>
     simp only [Out] at h
     obtain ⟨stG', hg, hf, hl⟩ := h
-    simp only [hf.noSlashS, Bool.false_eq_true, if_false]
     cases hr : stS.rangeErr with
     | some e =>
-      simp only
+      simp only [sbOfRes, hf.noSlashS, Bool.false_eq_true, if_false, hr, AgreeP]
       right
       exact ⟨neg, stG', rest', hg, hf.noSlashG, by rw [hf.deferred, hr]⟩
     | none =>
-      simp only
+      simp only [sbOfRes, hf.noSlashS, Bool.false_eq_true, if_false, hr, AgreeP]
       exact ⟨stG', hg, hf.noSlashG, by rw [hf.deferred, hr], by omega, fun nc x => hf.setMem_eq hr nc neg x⟩
+
+theorem scanItems_nil (fn : Bool) (fuel : Nat) (first : Bool) (st : BSt) :
+    scanItems fn fuel first st [] = (st, none) := by
+  rw [scanItems.eq_def]
+  cases fuel <;> rfl
 
 theorem bracket_body_agree (neg : Bool) (prev1 : Rune) (body s : Str) (hlen : body.length ≤ s.length)
     (hsup : brSupported false (body.length + 1) true body = true) :
-    match (match scanItems false (body.length + 1) true
-        { items := [], slash := false, rangeErr := none, classErr := none } body with
-      | (st, some rest) =>
-        if st.slash then BScan.notBracket
-        else match st.rangeErr with
-          | some e => BScan.malformed e
-          | none => BScan.ok neg st.items rest
-      | (st, none) =>
-        match st.classErr with
-        | some e => BScan.malformed e
-        | none => BScan.notBracket) with
-    | .ok neg' items rest' =>
-      ∃ st, (match body with
-          | [] => BrRes.literal
-          | c1 :: r2 =>
-            if c1 = cRB then
-              match r2 with
-              | [] => .literal
-              | _ => brLoop false neg (r2.length + 1)
-                  { items := [.raw cRB], hasSlash := false, deferred := none, classErr := none } cRB r2
-            else brLoop false neg (body.length + 1)
-              { items := [], hasSlash := false, deferred := none, classErr := none } prev1 body)
-          = .closed neg' st rest' ∧ st.hasSlash = false ∧ st.deferred = none ∧
-        rest'.length < s.length ∧ ∀ nc x, setMem nc neg' st.items x = bracketMem nc neg' items x
-    | .malformed e =>
-      (match body with
-          | [] => BrRes.literal
-          | c1 :: r2 =>
-            if c1 = cRB then
-              match r2 with
-              | [] => .literal
-              | _ => brLoop false neg (r2.length + 1)
-                  { items := [.raw cRB], hasSlash := false, deferred := none, classErr := none } cRB r2
-            else brLoop false neg (body.length + 1)
-              { items := [], hasSlash := false, deferred := none, classErr := none } prev1 body) = .err e ∨
-      ∃ neg' st rest', (match body with
-          | [] => BrRes.literal
-          | c1 :: r2 =>
-            if c1 = cRB then
-              match r2 with
-              | [] => .literal
-              | _ => brLoop false neg (r2.length + 1)
-                  { items := [.raw cRB], hasSlash := false, deferred := none, classErr := none } cRB r2
-            else brLoop false neg (body.length + 1)
-              { items := [], hasSlash := false, deferred := none, classErr := none } prev1 body)
-          = .closed neg' st rest' ∧ st.hasSlash = false ∧ st.deferred = some e
-    | .notBracket =>
-      (match body with
-          | [] => BrRes.literal
-          | c1 :: r2 =>
-            if c1 = cRB then
-              match r2 with
-              | [] => .literal
-              | _ => brLoop false neg (r2.length + 1)
-                  { items := [.raw cRB], hasSlash := false, deferred := none, classErr := none } cRB r2
-            else brLoop false neg (body.length + 1)
-              { items := [], hasSlash := false, deferred := none, classErr := none } prev1 body) = .literal := by
+    AgreeP (sbBody neg body) (brBody neg prev1 body) s := by
+  rw [sbBody_eq]
   cases body with
   | nil =>
-    have : scanItems false ([] : Str).length.succ true
-        { items := [], slash := false, rangeErr := none, classErr := none } [] =
-        ({ items := [], slash := false, rangeErr := none, classErr := none }, none) := by
-      rw [scanItems.eq_def]
-    simp only [Nat.succ_eq_add_one] at this
-    rw [this]
+    rw [scanItems_nil]
+    simp [sbOfRes, AgreeP, brBody]
   | cons c1 r2 =>
     by_cases hc : c1 = cRB
     · subst hc
-      simp only [if_true]
       cases r2 with
       | nil =>
-        have : scanItems false ([cRB] : Str).length.succ true
+        have : scanItems false (([cRB] : Str).length + 1) true
             { items := [], slash := false, rangeErr := none, classErr := none } [cRB] =
             ({ items := [], slash := false, rangeErr := none, classErr := none }, none) := by
-          simp only [List.length_cons, List.length_nil, Nat.succ_eq_add_one]
+          simp only [List.length_cons, List.length_nil]
           rw [scanItems_cons]
-          simp [scanClass, elemChar]
-          decide
-        simp only [Nat.succ_eq_add_one] at this
-        rw [this]
-      | cons d r3 =>
-        -- `]` first is an ordinary character: Go has pushed it before entering the loop
-        simp only []
-        have hS : scanItems false ((cRB :: d :: r3).length + 1) true
-            { items := [], slash := false, rangeErr := none, classErr := none } (cRB :: d :: r3) =
-            afterLoS (d :: r3).length.succ { items := [], slash := false, rangeErr := none, classErr := none }
-              cRB (d :: r3) := by
-          simp only [List.length_cons, Nat.succ_eq_add_one]
-          rw [scanItems_cons]
-          have e1 : ¬ (cRB = cRB ∧ (!true) = true) := by simp
           have e2 : cRB ≠ cLB := by decide
           have e3 : cRB ≠ cBS := by decide
-          simp only [e1, e2, if_false, elemChar, e3, Bool.false_and, Bool.or_false, afterLoS]
+          simp only [e2, if_false, elemChar, e3]
           simp
+        rw [this]
+        simp [sbOfRes, AgreeP, brBody]
+      | cons d r3 =>
+        -- `]` first is an ordinary character: Go has pushed it before entering the loop
+        have hS : scanItems false ((cRB :: d :: r3).length + 1) true
+            { items := [], slash := false, rangeErr := none, classErr := none } (cRB :: d :: r3) =
+            afterLoS (r3.length + 2) { items := [], slash := false, rangeErr := none, classErr := none }
+              cRB (d :: r3) := by
+          simp only [List.length_cons]
+          rw [scanItems_cons]
+          have e2 : cRB ≠ cLB := by decide
+          have e3 : cRB ≠ cBS := by decide
+          simp only [e2, if_false, elemChar, e3, Bool.false_and, Bool.or_false]
+          rfl
         rw [hS]
-        have hsup' : suppAfterLo (d :: r3).length (d :: r3) = true := by
+        have hsup' : suppAfterLo (r3.length + 2) (d :: r3) = true := by
           simp only [List.length_cons] at hsup
           rw [brSupported_cons] at hsup
-          have e1 : ¬ (cRB = cRB ∧ (!true) = true) := by simp
           have e2 : cRB ≠ cLB := by decide
           have e3 : cRB ≠ cBS := by decide
           have e4 : ¬ (cRB = cDash ∧ (!false) = true) := by
             intro h; exact absurd h.1 (by decide)
-          simp only [e1, e2, if_false, elemChar, e3, Bool.false_and, Bool.false_eq_true, e4] at hsup
+          simp only [e2, if_false, elemChar, e3, Bool.false_and, Bool.false_eq_true, e4] at hsup
           simpa [suppAfterLo] using hsup
-        have key := sim_afterLo (d :: r3).length.succ (sim_loop _) ((d :: r3).length + 1) (d :: r3).length
+        have key := sim_afterLo (r3.length + 2) (sim_loop _) ((d :: r3).length + 1) (r3.length + 2)
           { items := [], hasSlash := false, deferred := none, classErr := none }
           { items := [], slash := false, rangeErr := none, classErr := none }
-          (.raw cRB) cRB (d :: r3) neg rfl (by decide) rfl (Nat.lt_succ_self _) (Nat.lt_succ_self _)
+          (.raw cRB) cRB (d :: r3) neg rfl (by decide) rfl (Nat.lt_succ_self _) (by simp)
           hsup' sim0
         have e : pushItem { items := [], hasSlash := false, deferred := none, classErr := none }
             (.raw cRB) false = { items := [.raw cRB], hasSlash := false, deferred := none, classErr := none } := by
           simp [pushItem]
         rw [e] at key
+        have hbr : brBody neg prev1 (cRB :: d :: r3) = brLoop false neg ((d :: r3).length + 1)
+            { items := [.raw cRB], hasSlash := false, deferred := none, classErr := none } cRB (d :: r3) := by
+          simp [brBody]
+        rw [hbr]
         exact agree_of_out neg _ _ _ s (by simpa using hlen) key
-    · simp only [hc, if_false]
+    · have hbr : brBody neg prev1 (c1 :: r2) = brLoop false neg ((c1 :: r2).length + 1)
+          { items := [], hasSlash := false, deferred := none, classErr := none } prev1 (c1 :: r2) := by
+        simp [brBody, hc]
+      rw [hbr]
       have key := sim_loop ((c1 :: r2).length + 1) ((c1 :: r2).length + 1) ((c1 :: r2).length + 1) true
         { items := [], hasSlash := false, deferred := none, classErr := none }
         { items := [], slash := false, rangeErr := none, classErr := none } prev1 (c1 :: r2) neg
         (Nat.lt_succ_self _) (Nat.lt_succ_self _) (by simp [hc]) hsup sim0
       exact agree_of_out neg _ _ _ s hlen key
+
+theorem scanBracket_eq (c : Rune) (r1 : Str) :
+    scanBracket false (c :: r1) =
+      if c = cBang ∨ c = cCaret then sbBody true r1 else sbBody false (c :: r1) := by
+  unfold scanBracket sbBody
+  by_cases h : c = cBang ∨ c = cCaret
+  · have : ((c :: r1).head? = some cBang ∨ (c :: r1).head? = some cCaret) := by simpa using h
+    simp only [this, h, if_true, decide_true, List.tail_cons]
+    rfl
+  · have : ¬ ((c :: r1).head? = some cBang ∨ (c :: r1).head? = some cCaret) := by simpa using h
+    simp only [this, h, if_false, decide_false]
+    rfl
+
+theorem bracket_eq (c : Rune) (r1 : Str) :
+    bracket false (c :: r1) =
+      if c = cBang ∨ c = cCaret then brBody true c r1 else brBody false cLB (c :: r1) := by
+  unfold bracket brBody
+  by_cases h : c = cBang ∨ c = cCaret
+  · simp only [h, if_true, decide_true]
+    cases r1 <;> rfl
+  · simp only [h, if_false, decide_false]
+    rfl
+
+theorem bracket_agree (s : Str) (hs : bracketSupported false s = true) : BracketAgree s := by
+  unfold BracketAgree
+  cases s with
+  | nil =>
+    have := bracket_body_agree false cLB [] [] (Nat.le_refl _) (by simpa [bracketSupported] using hs)
+    have e1 : scanBracket false [] = sbBody false [] := by
+      unfold scanBracket sbBody
+      simp
+      rfl
+    have e2 : bracket false [] = brBody false cLB [] := by simp [bracket, brBody]
+    rw [e1, e2]; exact this
+  | cons c r1 =>
+    rw [scanBracket_eq, bracket_eq]
+    unfold bracketSupported at hs
+    by_cases hneg : c = cBang ∨ c = cCaret
+    · have : ((c :: r1).head? = some cBang ∨ (c :: r1).head? = some cCaret) := by simpa using hneg
+      simp only [this, if_true, decide_true, List.tail_cons] at hs
+      simp only [hneg, if_true]
+      exact bracket_body_agree true c r1 (c :: r1) (by simp) hs
+    · have : ¬ ((c :: r1).head? = some cBang ∨ (c :: r1).head? = some cCaret) := by simpa using hneg
+      simp only [this, if_false, decide_false] at hs
+      simp only [hneg, if_false]
+      exact bracket_body_agree false cLB (c :: r1) (c :: r1) (Nat.le_refl _) hs
+
+/-! ### the whole pattern, outside filename mode and without extended operators -/
+
+theorem matches_cat_iff (nc : Bool) (a b : Regex) (s : Str) :
+    Matches nc (.cat a b) s ↔ ∃ s1 s2, s = s1 ++ s2 ∧ Matches nc a s1 ∧ Matches nc b s2 := by
+  constructor
+  · intro h; cases h with
+    | cat h1 h2 => exact ⟨_, _, rfl, h1, h2⟩
+  · rintro ⟨s1, s2, rfl, h1, h2⟩; exact .cat h1 h2
+
+theorem matches_eps_iff (nc : Bool) (s : Str) : Matches nc .eps s ↔ s = [] := by
+  constructor
+  · intro h; cases h; rfl
+  · rintro rfl; exact .eps
+
+theorem matches_chr_iff (nc : Bool) (c : Rune) (s : Str) :
+    Matches nc (.chr c) s ↔ ∃ x, s = [x] ∧ chEq nc c x = true := by
+  constructor
+  · intro h; cases h with
+    | chr hc => exact ⟨_, rfl, hc⟩
+  · rintro ⟨x, rfl, hc⟩; exact .chr hc
+
+theorem matches_any_iff (nc : Bool) (s : Str) : Matches nc .any s ↔ ∃ x, s = [x] := by
+  constructor
+  · intro h; cases h; exact ⟨_, rfl⟩
+  · rintro ⟨x, rfl⟩; exact .any
+
+theorem matches_set_iff (nc neg : Bool) (items : List CItem) (s : Str) :
+    Matches nc (.set neg items) s ↔ ∃ x, s = [x] ∧ setMem nc neg items x = true := by
+  constructor
+  · intro h; cases h with
+    | set hc => exact ⟨_, rfl, hc⟩
+  · rintro ⟨x, rfl, hc⟩; exact .set hc
+
+theorem matches_star_any (nc : Bool) (s : Str) : Matches nc (.star .any) s := by
+  induction s with
+  | nil => exact .starNil
+  | cons x s ih => exact .starCons (s := [x]) .any ih
+
+theorem wildOk_nofn {m : Mode} (h : m.filenames = false) (b : Bool) (x : Rune) : wildOk m b x = true := by
+  simp [wildOk, h]
+
+theorem starDen_nofn {m : Mode} (h : m.filenames = false) (b : Bool) (s : Str) : StarDen m b s := by
+  induction s generalizing b with
+  | nil => trivial
+  | cons x s ih => exact ⟨wildOk_nofn h b x, ih false⟩
+
+/-- Agreement of the reference parse and the translation of the same (rest of a) pattern. -/
+def TopAgree (m : Mode) (r : Except Err Glob) (t : Except Err (Regex × List (Nat × Nat))) : Prop :=
+  match r with
+  | .ok g => ∃ body, t = .ok (body, []) ∧ ∀ b s, Matches m.nocase body s ↔ GDen m g b s
+  | .error e => t = .error e
+
+/-- The continuation of `topLoop` after a token. -/
+def contTok (r : Regex) (t : Except Err (Regex × List (Nat × Nat))) : Except Err (Regex × List (Nat × Nat)) :=
+  match t with
+  | .ok (b, negs) => .ok (.cat r b, negs)
+  | .error e => .error e
+
+theorem TopAgree.cons {m : Mode} {gtok : Glob} {r : Regex}
+    {pr : Except Err Glob} {t : Except Err (Regex × List (Nat × Nat))}
+    (htok : ∀ b s, Matches m.nocase r s ↔ GDen m gtok b s) (h : TopAgree m pr t) :
+    TopAgree m (andThenG gtok pr) (contTok r t) := by
+  cases pr with
+  | error e =>
+    simp only [TopAgree] at h
+    subst h
+    simp [andThenG, contTok, TopAgree]
+  | ok g' =>
+    simp only [TopAgree] at h
+    obtain ⟨body, rfl, hb⟩ := h
+    simp only [andThenG, contTok, TopAgree]
+    refine ⟨_, rfl, ?_⟩
+    intro b s
+    rw [matches_cat_iff]
+    simp only [GDen]
+    constructor
+    · rintro ⟨s1, s2, rfl, h1, h2⟩
+      exact ⟨s1, s2, rfl, (htok b s1).mp h1, (hb _ s2).mp h2⟩
+    · rintro ⟨s1, s2, rfl, h1, h2⟩
+      exact ⟨s1, s2, rfl, (htok b s1).mpr h1, (hb _ s2).mpr h2⟩
+
+theorem topLoop_tok {m : Mode} {total fuel : Nat} {prev : Rune} {rest : Str} {r : Regex} {p' : Rune}
+    {rest' : Str} (h : next m total (2 * total + 4) prev rest = .tok r p' rest') :
+    topLoop m total (fuel + 1) prev rest = contTok r (topLoop m total fuel p' rest') := by
+  rw [topLoop_succ, h]
+  rfl
+
+theorem topLoop_err {m : Mode} {total fuel : Nat} {prev : Rune} {rest : Str} {e : Err}
+    (h : next m total (2 * total + 4) prev rest = .err e) :
+    topLoop m total (fuel + 1) prev rest = .error e := by
+  rw [topLoop_succ, h]
+
+theorem top_agree (m : Mode) (hne : m.ext = false) (hnf : m.filenames = false) (total : Nat) :
+    ∀ (fuelS : Nat) (pos : Pos) (prev : Rune) (rest : Str) (fuelP fuelT : Nat),
+      rest.length < fuelP → rest.length < fuelT →
+      supp m false fuelS pos prev rest = true →
+      TopAgree m (parseSeq m fuelP prev rest) (topLoop m total fuelT prev rest) := by
+  intro fuelS
+  induction fuelS with
+  | zero => intro pos prev rest fuelP fuelT _ _ h; rw [supp.eq_def] at h; simp at h
+  | succ fS ih =>
+    intro pos prev rest fuelP fuelT hP hT hs
+    cases fuelP with
+    | zero => simp at hP
+    | succ fP =>
+    cases fuelT with
+    | zero => simp at hT
+    | succ fT =>
+    have hfuel : 2 * total + 4 = (2 * total + 3) + 1 := by omega
+    cases rest with
+    | nil =>
+      rw [parseSeq_nil, topLoop_succ, hfuel, next_nil]
+      simp only [TopAgree]
+      exact ⟨_, rfl, fun b s => by rw [matches_eps_iff]; simp [GDen]⟩
+    | cons c rest =>
+      have hP' : rest.length < fP := by simp at hP; omega
+      have hT' : rest.length < fT := by simp at hT; omega
+      rw [supp_cons] at hs
+      rw [parseSeq_cons]
+      have hgrp : (m.ext && isExtOp c && rest.head? == some cLP) = false := by simp [hne]
+      have hgrp2 : (!(m.ext && rest.head? == some cLP)) = true := by simp [hne]
+      by_cases hbs : c = cBS
+      · subst hbs
+        simp only [if_true] at hs ⊢
+        cases rest with
+        | nil =>
+          simp only [TopAgree]
+          apply topLoop_err
+          rw [hfuel, next_cons]
+          have e1 : cBS ≠ cStar := by decide
+          have e2 : cBS ≠ cQuest := by decide
+          simp [hne, e1, e2]
+        | cons d rest' =>
+          simp only at hs ⊢
+          have hn : next m total (2 * total + 4) prev (cBS :: d :: rest') = .tok (.chr d) d rest' := by
+            rw [hfuel, next_cons]
+            have e1 : cBS ≠ cStar := by decide
+            have e2 : cBS ≠ cQuest := by decide
+            simp [hne, e1, e2]
+          rw [topLoop_tok hn]
+          refine TopAgree.cons ?_ (ih _ d rest' fP fT (by simp at hP'; omega) (by simp at hT'; omega) hs)
+          intro b s
+          rw [matches_chr_iff]; simp [GDen]
+      · simp only [hbs, if_false, hgrp, Bool.false_eq_true, hgrp2, and_true] at hs ⊢
+        by_cases hq : c = cQuest
+        · subst hq
+          simp only [if_true, Bool.and_eq_true] at hs ⊢
+          have hn : next m total (2 * total + 4) prev (cQuest :: rest) = .tok .any cQuest rest := by
+            rw [hfuel, next_cons]
+            have e1 : cQuest ≠ cStar := by decide
+            simp [hne, hnf, e1]
+          rw [topLoop_tok hn]
+          refine TopAgree.cons ?_ (ih _ cQuest rest fP fT hP' hT' hs.2)
+          intro b s
+          rw [matches_any_iff]
+          simp [GDen, wildOk_nofn hnf]
+        · simp only [hq, if_false] at hs ⊢
+          by_cases hst : c = cStar
+          · subst hst
+            simp only [if_true, hnf, Bool.false_and, Bool.false_eq_true, if_false, Bool.not_false] at hs ⊢
+            have hn : next m total (2 * total + 4) prev (cStar :: rest) = .tok (.star .any) cStar rest := by
+              rw [hfuel, next_cons]
+              simp [hne, hnf]
+            rw [topLoop_tok hn]
+            refine TopAgree.cons ?_ (ih _ cStar rest fP fT hP' hT' hs)
+            intro b s
+            simp only [GDen]
+            exact ⟨fun _ => starDen_nofn hnf b s, fun _ => matches_star_any _ s⟩
+          · simp only [hst, if_false] at hs ⊢
+            by_cases hlb : c = cLB
+            · subst hlb
+              simp only [if_true, hnf, Bool.and_eq_true] at hs ⊢
+              obtain ⟨hbsup, hs2⟩ := hs
+              have hag := bracket_agree rest hbsup
+              unfold BracketAgree at hag
+              have hnx : next m total (2 * total + 4) prev (cLB :: rest) =
+                  (match bracket false rest with
+                   | .literal => Step.tok (.chr cLB) cLB rest
+                   | .err e => .err e
+                   | .closed neg st rest' =>
+                     if st.hasSlash then
+                       .tok (seqRegex ((cLB :: rest.take (rest.length - rest'.length)).map .chr)) cRB rest'
+                     else match st.deferred with
+                       | some e => .err e
+                       | none => .tok (.set neg st.items) cRB rest') := by
+                rw [hfuel, next_cons]
+                have e1 : cLB ≠ cStar := by decide
+                have e2 : cLB ≠ cQuest := by decide
+                have e3 : cLB ≠ cBS := by decide
+                simp only [hne, Bool.false_and, Bool.false_eq_true, if_false, e1, e2, e3, if_true, hnf]
+              cases hsb : scanBracket false rest with
+              | notBracket =>
+                rw [hsb] at hag hs2
+                simp only [AgreeP] at hag
+                simp only at hs2 ⊢
+                have hn : next m total (2 * total + 4) prev (cLB :: rest) = .tok (.chr cLB) cLB rest := by
+                  rw [hnx, hag]
+                rw [topLoop_tok hn]
+                refine TopAgree.cons ?_ (ih _ cLB rest fP fT hP' hT' hs2)
+                intro b s
+                rw [matches_chr_iff]; simp [GDen]
+              | malformed e =>
+                rw [hsb] at hag
+                simp only [AgreeP] at hag
+                simp only [TopAgree]
+                apply topLoop_err
+                rw [hnx]
+                rcases hag with hag | ⟨neg, st, rest', hag, h1, h2⟩
+                · rw [hag]
+                · rw [hag]; simp [h1, h2]
+              | ok neg items rest' =>
+                rw [hsb] at hag hs2
+                simp only [AgreeP] at hag
+                obtain ⟨st, hbr, h1, h2, hlen, hmem⟩ := hag
+                simp only [hnf, Bool.false_and, Bool.not_false, Bool.true_and, Bool.and_eq_true] at hs2
+                simp only
+                have hn : next m total (2 * total + 4) prev (cLB :: rest) = .tok (.set neg st.items) cRB rest' := by
+                  rw [hnx, hbr]; simp [h1, h2]
+                rw [topLoop_tok hn]
+                refine TopAgree.cons ?_ (ih _ cRB rest' fP fT (by omega) (by omega) hs2.2)
+                intro b s
+                rw [matches_set_iff]
+                simp [GDen, wildOk_nofn hnf, hmem]
+            · simp only [hlb, if_false, Bool.false_and, Bool.false_eq_true] at hs ⊢
+              have hn : next m total (2 * total + 4) prev (c :: rest) = .tok (.chr c) c rest := by
+                rw [hfuel, next_cons]
+                simp [hne, hbs, hq, hst, hlb]
+              rw [topLoop_tok hn]
+              refine TopAgree.cons ?_ (ih _ c rest fP fT hP' hT' hs)
+              intro b s
+              rw [matches_chr_iff]; simp [GDen]
 
 end ShVerif.L3
